@@ -827,7 +827,7 @@ pub fn run_c17(ctx: &Ctx) -> i32 {
         evaluations: acc.get("histories") + acc.get("schedules"),
         distinct_nontrivial: acc.get("histories") + acc.get("schedules"),
         exhaustive: acc.get("schedule_cap_hit") == 0,
-        bounds: json!({"history_depth": ctx.tier.pick(3, 4), "operation_alphabet": 64, "preemption_bounds": acc.hist.get("preemption_bound_completed"), "threads": "2 (thorough: also 3)"}),
+        bounds: json!({"history_depth": ctx.tier.pick(3, 4), "operation_alphabet": 68, "preemption_bounds": acc.hist.get("preemption_bound_completed"), "threads": "2 (thorough: also 3)"}),
         assumptions: vec![
             "preemption happens only at scalar-operation boundaries of the generic code; non-generic f64 code (Gamma quantile, component search) has no scheduling points and no shared state today (source scan reported in coverage, as an assumption); a separate free-running pass (four OS threads, uncontrolled, supplementary - sampling, not exhaustive) runs the same bodies and would show a data race there".into(),
         ],
